@@ -11,6 +11,7 @@ from .. import splitter_facts as sf
 
 def run(P: Program, rep: Report):
     rep.not_decided += ["str.isspace vs str.rstrip on exotic Unicode whitespace", "free-text extraction beyond class strings of length 5"]
+    sf.sm.configure(P)
     rx = find_mark_regex(P)
     singles = rx.single_char_marks()
 
@@ -57,13 +58,13 @@ def run(P: Program, rep: Report):
                     one_nl = True
             rep.check(ok and one_nl, "C03.R2", construct, loc,
                       "initial line counter is not -1 paired with exactly one newline prepended to the text")
-        elif f.name == "_next_mark":
+        elif f.name == sf.sm.M_NEXT_MARK:
             ok = isinstance(n, ast.AugAssign) and isinstance(n.op, ast.Add) and ast.unparse(n.value) == "1"
             rep.check(ok, "C03.R2", construct, loc, "line counter is not advanced by exactly +1")
         else:
             rep.fail("C03.R2", construct, loc, f"line counter written outside __init__/_next_mark (in {f.name})")
     issues, scen = sf.check_next_mark(P)
-    fi = P.func("splitter", "Splitter._next_mark")
+    fi = P.func("splitter", f"Splitter.{sf.sm.M_NEXT_MARK}")
     lineish = [i for i in issues if "line counter" in i["message"] or "newline mark" in i["message"] or "analyser" in i["message"]]
     for s in scen:
         rep.ok("C03.R2", "next_mark:" + s, fi.loc) if not any(i["scenario"] in s for i in lineish) else None
@@ -85,7 +86,7 @@ def run(P: Program, rep: Report):
                        "whitespace-only text yields no block (abstract run of _end_implicit_comment)")
     iss, n = sf.check_end_implicit_comment(P)
     rep.count("implicit_comment_class_strings", n)
-    fe = P.func("splitter", "Splitter._end_implicit_comment")
+    fe = P.func("splitter", f"Splitter.{sf.sm.M_END_IMPLICIT}")
     seen = set()
     for i in iss:
         k = i["message"].split(":")[0][:60]
